@@ -262,6 +262,9 @@ class ScriptServer(fakenet.Endpoint):
             rx.append(fakenet.NEVER)
         elif k == "rreset":
             rx.append(("exc", ConnectionResetError(errno.ECONNRESET, "Connection reset by peer")))
+        elif k == "rother":
+            # an OSError that is not a ConnectionError while the reply is awaited (the request has been sent)
+            rx.append(("exc", OSError(errno.EHOSTUNREACH, "No route to host")))
         elif k == "eof":
             rx.append(fakenet.EOF)
         elif k == "garbage":
